@@ -80,6 +80,7 @@ func without(xs []string, drop ...string) []string {
 
 func runC02(c *Ctx, tier string) {
 	p := c.P
+	runLexerDecodesWholeRunes(c, "C02-L1")
 	c.Rule("C02-K1", "formatter / parser-analyzer / builder kind tables: every kind of the switched domain (complex zed types, primitive types, ZSON AST nodes, zson.Value nodes, type-value tags) has a case at every dispatch site of package zson, so that whatever one side can emit the other side can read")
 	cx, prim := zedKinds(p)
 	if len(cx) < 8 || len(prim) < 15 {
